@@ -168,10 +168,27 @@ def classify(text, source='str', filt='default'):
             return name, site
 
 
+def _feed(case):
+    """Replays carry the document that went through the named entry point first."""
+    from mosromgr.moscollection import MosCollection, MosReader
+    fn = {'MosFile.from_string': lambda d: MosFile.from_string(d),
+          'MosReader.from_string': lambda d: MosReader.from_string(d),
+          'MosCollection.from_strings': lambda d: MosCollection.from_strings(
+              [B.tostring(B.envelope(_payload_for('roCreate'), 1)), d], allow_incomplete=True)}[case['after']]
+    with warnings.catch_warnings():
+        warnings.simplefilter('ignore')
+        try:
+            fn(case['prev'])
+        except Exception:
+            pass
+
+
 def judge_doc(case):
     exp = expected(case['doc'])
     if exp is None:
         return []
+    if 'prev' in case:
+        _feed(case)
     if case.get('source', '').startswith('ea:'):
         try:
             if ET.fromstring(case['doc']).find('roElementAction') is None:
@@ -422,6 +439,54 @@ def shard_enum(args):
     return col
 
 
+def shard_after_others(args):
+    """Classification is decided by the document alone - not by what this process has classified before.
+    Every roElementAction shape and every plain tag is classified right after ANOTHER document carrying
+    the same messageID (and, for files, written to the same path) went through each entry point that
+    classifies: MosFile.from_string, MosReader.from_string, MosCollection.from_strings, MosFile.from_file."""
+    from mosromgr.moscollection import MosCollection, MosReader
+    col = Collector(PROP)
+    docs = [t for _l, t, _e in enum_ea_shapes()]
+    docs = docs[::3] + [B.tostring(B.envelope(_payload_for(tag), 9)) for tag in TAG_ORDER]
+    path = os.path.join(_tmp(), 'inbox.mos.xml')
+    os.makedirs(_tmp(), exist_ok=True)
+    feeders = {
+        'MosFile.from_string': lambda d: MosFile.from_string(d),
+        'MosReader.from_string': lambda d: MosReader.from_string(d),
+        'MosCollection.from_strings': lambda d: MosCollection.from_strings(
+            [B.tostring(B.envelope(_payload_for('roCreate'), 1)), d], allow_incomplete=True),
+    }
+    n = 0
+    for step_ in (1, 7, 53):
+        for i, doc in enumerate(docs):
+            prev = docs[(i + step_) % len(docs)]
+            for fname, feed in feeders.items():
+                case = {'doc': doc, 'source': 'str', 'after': fname, 'prev': prev}
+                col.record(case, True, ['after-another-document-with-the-same-messageID', f'after:{fname}'],
+                           judge_doc(case), key=h64(doc, prev, fname))
+                n += 1
+            # the same path rewritten with another message
+            for d in (prev, doc):
+                with open(path, 'w', encoding='utf-8') as f:
+                    f.write(d)
+                try:
+                    with warnings.catch_warnings():
+                        warnings.simplefilter('ignore')
+                        got, site = type(MosFile.from_file(path)).__name__, None
+                except Exception as e:
+                    got, _m, _is, site = classify_exc(e)
+            exp = expected(doc)
+            fails = []
+            if exp is not None and got not in exp:
+                fails = [Failure(PROP, f'C08|path-rewritten|{sorted(exp)[0]}->{got}',
+                                 f'a path rewritten with another message: from_file gave {got}, expected {sorted(exp)}',
+                                 sorted(exp), got)]
+            col.record({'doc': doc, 'source': 'file', 'after': 'same path held: ' + prev[:80]}, True,
+                       ['after-another-document-at-the-same-path'], fails, key=h64(doc, prev, 'path'))
+    col.scopes.append(f'classification after another document with the same messageID / at the same path: {n} ordered pairs x 3 entry points')
+    return col
+
+
 # ------------------------------------------------------------------ hypothesis
 
 @st.composite
@@ -566,6 +631,7 @@ def run(tier, seed, procs):
     shards, per = (8, 150) if quick else (16, 12000)
     cols += drive.pool_map(shard_hyp, [(per, seed * 1000 + i) for i in range(shards)], procs)
     cols += drive.pool_map(shard_subprocess, [None], 1)
+    cols += drive.pool_map(shard_after_others, [None], 1)
     shutil.rmtree(_tmp(), ignore_errors=True)
     if not quick:
         # coverage-guided campaign (atheris/libFuzzer over the same strategies)
